@@ -6,25 +6,6 @@ both succeed with the same number of lines and the same *core* entries.
 namespace N0.Compare
 open N0
 
-/-- a type clash between two items of a keyed list is reported at `prefix[i]` when it goes to
-`difftypes` and at `prefix[i]<>[j]` when it goes to `not_equal`: the core keeps the left index -/
-def stripSeg : PSeg → PSeg
-  | .idx2 i _ => .idx i
-  | s => s
-
-def stripLast : Path → Path
-  | [] => []
-  | [s] => [stripSeg s]
-  | s :: t :: rest => s :: stripLast (t :: rest)
-
-theorem stripLast_snoc (p : Path) (s : PSeg) : stripLast (p ++ [s]) = p ++ [stripSeg s] := by
-  induction p with
-  | nil => rfl
-  | cons a p ih =>
-    cases p with
-    | nil => rfl
-    | cons b p => simp only [List.cons_append, stripLast] at ih ⊢; rw [ih]
-
 /-- pairs of equal type that differ (the numeric delta is dropped) -/
 def Res.same (r : Res) : List (Path × Val × Val) :=
   (r.notEqual.filter (fun e => e.kind = .lst)).map (fun e => (e.path, e.l, e.r))
@@ -32,7 +13,7 @@ def Res.same (r : Res) : List (Path × Val × Val) :=
 /-- pairs of different type, wherever the types flag sends them -/
 def Res.clash (types : Bool) (r : Res) : List (Path × Val × Val) :=
   if types then r.diffTypes.map (fun e => (e.path, e.l, e.r))
-  else (r.notEqual.filter (fun e => e.kind = .tup)).map (fun e => (stripLast e.path, e.l, e.r))
+  else (r.notEqual.filter (fun e => e.kind = .tup)).map (fun e => (e.path, e.l, e.r))
 
 /-- same verdict, same core: number of lines, differing pairs, type clashes, unique items (with their
 places; the place flag only decides whether the place is shown) -/
@@ -89,8 +70,8 @@ theorem classifyItem_core (cfg : Cfg) (p pne pdt : Path) (sa oa x y : Val) :
 
 theorem itemCore_flags (fl fl' : Flags) (sv ov : Val) (p0 : Path) (seg : PSeg) (sa oa x y : Val) :
     FlagActRel fl.types fl'.types
-      (itemCore fl sv ov (p0 ++ [seg]) (p0 ++ [stripSeg seg]) sa oa x y)
-      (itemCore fl' sv ov (p0 ++ [seg]) (p0 ++ [stripSeg seg]) sa oa x y) := by
+      (itemCore fl sv ov (p0 ++ [seg]) (p0 ++ [seg]) sa oa x y)
+      (itemCore fl' sv ov (p0 ++ [seg]) (p0 ++ [seg]) sa oa x y) := by
   unfold itemCore
   by_cases h1 : tyOf sv = tyOf ov
   · by_cases h2 : isPyScalar sv = true
@@ -106,12 +87,12 @@ theorem itemCore_flags (fl fl' : Flags) (sv ov : Val) (p0 : Path) (seg : PSeg) (
       trivial
   · simp only [if_neg h1]
     cases fl.types <;> cases fl'.types <;>
-      exact ⟨coreEq_of_lists rfl (by simp [Res.same]) (by simp [Res.clash, stripLast_snoc]) rfl rfl, rfl⟩
+      exact ⟨coreEq_of_lists rfl (by simp [Res.same]) (by simp [Res.clash]) rfl rfl, rfl⟩
 
 theorem classifyItem_flags (cfg : Cfg) (fl' : Flags) (p p0 : Path) (seg : PSeg) (sa oa x y : Val) :
     FlagActRel cfg.fl.types fl'.types
-      (classifyItem cfg p (p0 ++ [seg]) (p0 ++ [stripSeg seg]) sa oa x y)
-      (classifyItem (cfg.withFlags fl') p (p0 ++ [seg]) (p0 ++ [stripSeg seg]) sa oa x y) := by
+      (classifyItem cfg p (p0 ++ [seg]) (p0 ++ [seg]) sa oa x y)
+      (classifyItem (cfg.withFlags fl') p (p0 ++ [seg]) (p0 ++ [seg]) sa oa x y) := by
   rw [classifyItem_core, classifyItem_core]
   exact itemCore_flags cfg.fl fl' _ _ p0 seg sa oa x y
 
@@ -154,7 +135,7 @@ theorem entryCore_flags (fl fl' : Flags) (ex on : Bool) (sv ov : Val) (p0 : Path
         cases fl.types <;> cases fl'.types <;> exact ⟨coreEq_of_lists rfl rfl rfl rfl rfl, rfl⟩
       · simp only [Bool.false_eq_true, if_false, if_neg h1, if_true]
         cases fl.types <;> cases fl'.types <;>
-          exact ⟨coreEq_of_lists rfl (by simp [Res.same]) (by simp [Res.clash, stripLast_snoc, stripSeg]) rfl rfl, rfl⟩
+          exact ⟨coreEq_of_lists rfl (by simp [Res.same]) (by simp [Res.clash]) rfl rfl, rfl⟩
   · simp only [if_true]
     cases fl.types <;> cases fl'.types <;> exact ⟨coreEq_of_lists rfl rfl rfl rfl rfl, rfl⟩
 
@@ -195,7 +176,7 @@ theorem recordKey_flags (cfg : Cfg) (fl' : Flags) (p : Path) (kvs : List (Str ×
 
 theorem keyOf_flags (cfg : Cfg) (fl' : Flags) (p : Path) (v : Val) :
     keyOf (cfg.withFlags fl') p v = keyOf cfg p v := by
-  cases v <;> simp only [keyOf]
+  cases v <;> simp only [keyOf] <;> try rfl
   rename_i c kvs
   simp only [recordKey_flags]
   rfl
@@ -248,9 +229,6 @@ theorem excluded_flags (cfg : Cfg) (fl' : Flags) (p : Path) : excluded (cfg.with
 theorem keyedTail_coreEq (t t' : Bool) (p : Path) (sr orr : List KE) :
     CoreEq t t' (keyedTail p sr orr) (keyedTail p sr orr) :=
   coreEq_lists_only rfl rfl rfl rfl rfl rfl rfl
-
-theorem stripSeg_pair (i j : Nat) : stripSeg (if i = j then PSeg.idx i else PSeg.idx2 i j) = PSeg.idx i := by
-  split <;> rfl
 
 mutual
 theorem sub_flags (cfg : Cfg) (fl' : Flags) (site : Site) (p : Path) (v w : Val) :
@@ -339,7 +317,6 @@ theorem directWalk_flags (cfg : Cfg) (fl' : Flags) (p : Path) (sa oa : Val) (i :
   | x :: xs, y :: ys, i => by
     simp only [directWalk]
     have hrel := classifyItem_flags cfg fl' p p (.idx i) sa oa x y
-    simp only [stripSeg] at hrel
     cases hcl : classifyItem cfg p (p ++ [.idx i]) (p ++ [.idx i]) sa oa x y with
     | emit r0 s =>
       cases hcl' : classifyItem (cfg.withFlags fl') p (p ++ [.idx i]) (p ++ [.idx i]) sa oa x y with
@@ -372,16 +349,15 @@ theorem keyedWalk_flags (cfg : Cfg) (fl' : Flags) (p : Path) (sa oa : Val) (i : 
       obtain ⟨j, y⟩ := jy
       simp only
       have hrel := classifyItem_flags cfg fl' p p (if i = j then PSeg.idx i else PSeg.idx2 i j) sa oa x y
-      rw [stripSeg_pair] at hrel
-      cases hcl : classifyItem cfg p (p ++ [if i = j then PSeg.idx i else PSeg.idx2 i j]) (p ++ [.idx i]) sa oa x y with
+      cases hcl : classifyItem cfg p (p ++ [if i = j then PSeg.idx i else PSeg.idx2 i j]) (p ++ [if i = j then PSeg.idx i else PSeg.idx2 i j]) sa oa x y with
       | emit r0 s =>
-        cases hcl' : classifyItem (cfg.withFlags fl') p (p ++ [if i = j then PSeg.idx i else PSeg.idx2 i j]) (p ++ [.idx i]) sa oa x y with
+        cases hcl' : classifyItem (cfg.withFlags fl') p (p ++ [if i = j then PSeg.idx i else PSeg.idx2 i j]) (p ++ [if i = j then PSeg.idx i else PSeg.idx2 i j]) sa oa x y with
         | emit r0' s' =>
           rw [hcl, hcl'] at hrel
           exact relE_emit hrel.1 (keyedWalk_flags cfg fl' p sa oa (i + 1) xs ks _ _)
         | descend => rw [hcl, hcl'] at hrel; exact hrel.elim
       | descend =>
-        cases hcl' : classifyItem (cfg.withFlags fl') p (p ++ [if i = j then PSeg.idx i else PSeg.idx2 i j]) (p ++ [.idx i]) sa oa x y with
+        cases hcl' : classifyItem (cfg.withFlags fl') p (p ++ [if i = j then PSeg.idx i else PSeg.idx2 i j]) (p ++ [if i = j then PSeg.idx i else PSeg.idx2 i j]) sa oa x y with
         | emit r0' s' => rw [hcl, hcl'] at hrel; exact hrel.elim
         | descend =>
           exact relE_seq (sub_flags cfg fl' .item _ x y)
